@@ -292,6 +292,9 @@ pub struct FRec {
     pub typ: i16,
     /// unique serial used to build the string field values
     pub serial: u32,
+    /// bit i set: string field i uses the full field width (no NUL terminator), as `__attribute_nonstring__` allows
+    #[serde(default)]
+    pub full: u8,
 }
 
 #[derive(Clone, Debug, Serialize, Deserialize, PartialEq, Eq)]
@@ -303,6 +306,17 @@ pub struct FixedFile {
 fn put(buf: &mut [u8], off: usize, width: usize, v: i64) {
     let b = v.to_le_bytes();
     buf[off..off + width].copy_from_slice(&b[..width]);
+}
+
+/// value of string field `field_idx` of a record: unique marker, optionally padded to the full field width
+pub fn str_value_full(field_idx: usize, serial: u32, cap: usize, full: u8) -> String {
+    let mut s = str_value(field_idx, serial, cap);
+    if full & (1 << field_idx) != 0 {
+        while s.len() < cap {
+            s.push('z');
+        }
+    }
+    s
 }
 
 pub fn str_value(field_idx: usize, serial: u32, cap: usize) -> String {
@@ -341,7 +355,7 @@ impl FixedFile {
                         put(&mut b, o, w, usec);
                     }
                     for (i, f) in l.strs.iter().enumerate() {
-                        let s = str_value(i, r.serial, f.cap);
+                        let s = str_value_full(i, r.serial, f.cap, r.full);
                         b[f.off..f.off + s.len()].copy_from_slice(s.as_bytes());
                     }
                     if let Some((_, o)) = l.pid {
@@ -388,11 +402,12 @@ pub fn fixed_file(max_recs: usize, layouts_allowed: Vec<usize>) -> BoxedStrategy
         prop_oneof![12 => Just(0u8), 1 => Just(1u8), 1 => Just(2u8), 1 => Just(3u8)],
         1i32..60000,
         0i16..8,
+        prop_oneof![9 => Just(0u8), 1 => 1u8..16],
     );
     (prop::sample::select(layouts_allowed), 1_000_000_000i64..1_800_000_000, prop::collection::vec(rec, 1..=max_recs))
         .prop_map(|(layout, base, recs)| FixedFile {
             layout,
-            recs: recs.into_iter().enumerate().map(|(i, (ds, usec, null, pid, typ))| FRec { sec: base + ds, usec, null, pid, typ, serial: i as u32 }).collect(),
+            recs: recs.into_iter().enumerate().map(|(i, (ds, usec, null, pid, typ, full))| FRec { sec: base + ds, usec, null, pid, typ, serial: i as u32, full }).collect(),
         })
         .boxed()
 }
